@@ -34,37 +34,46 @@ pub enum TableType {
     Empty,
 }
 
+/// Takes the singleline comments trailing a formatted field value out of it, as they are moved after the comma.
+/// Multiline comments are retained in place.
+/// The formatted value is examined rather than the original one: removing redundant parentheses around
+/// the value can leave it with trailing comments which the original expression did not end with.
+fn take_singleline_trailing_comments(value: Expression) -> (Expression, Vec<Token>) {
+    let singleline_comments = value.trailing_comments_search(CommentSearch::Single);
+    let multiline_comments = value.trailing_comments_search(CommentSearch::Multiline);
+    (
+        value.update_trailing_trivia(FormatTriviaType::Replace(multiline_comments)),
+        singleline_comments,
+    )
+}
+
 /// Formats an Expression value part of a k,v field pair
+/// Returns the formatted value, together with the singleline comments which trailed it
 fn format_field_expression_value(
     ctx: &Context,
     expression: &Expression,
     shape: Shape,
-) -> Expression {
-    // Remove singleline comments from the output expression as it will be moved after the comma
-    // Retain multiline comments in place
-    let multiline_comments = expression.trailing_comments_search(CommentSearch::Multiline);
-    let trailing_trivia = FormatTriviaType::Replace(multiline_comments);
-
+) -> (Expression, Vec<Token>) {
     if trivia_util::can_hang_expression(expression) {
         if expression.has_inline_comments() {
-            hang_expression(ctx, expression, shape, Some(1)).update_trailing_trivia(trailing_trivia)
+            take_singleline_trailing_comments(hang_expression(ctx, expression, shape, Some(1)))
         } else {
-            let singleline_value = format_expression(ctx, expression, shape)
-                .update_trailing_trivia(trailing_trivia.clone());
-            let hanging_value = hang_expression(ctx, expression, shape, Some(1))
-                .update_trailing_trivia(trailing_trivia);
+            let (singleline_value, singleline_comments) =
+                take_singleline_trailing_comments(format_expression(ctx, expression, shape));
+            let (hanging_value, hanging_comments) =
+                take_singleline_trailing_comments(hang_expression(ctx, expression, shape, Some(1)));
 
             if shape.test_over_budget(&singleline_value)
                 || format!("{hanging_value}").lines().count()
                     < format!("{singleline_value}").lines().count()
             {
-                hanging_value
+                (hanging_value, hanging_comments)
             } else {
-                singleline_value
+                (singleline_value, singleline_comments)
             }
         }
     } else {
-        format_expression(ctx, expression, shape).update_trailing_trivia(trailing_trivia)
+        take_singleline_trailing_comments(format_expression(ctx, expression, shape))
     }
 }
 
@@ -150,7 +159,6 @@ fn format_field(
             equal,
             value,
         } => {
-            trailing_trivia = value.trailing_comments_search(CommentSearch::Single);
             let brackets = format_contained_span(ctx, brackets, shape);
 
             let space_brackets = is_brackets_string(key);
@@ -178,7 +186,8 @@ fn format_field(
                 .update_leading_trivia(leading_trivia);
 
             let shape = shape.take_last_line(&key) + (2 + 3 + if space_brackets { 2 } else { 0 }); // 2 = brackets, 3 = " = ", 2 = spaces around brackets if necessary
-            let value = format_field_expression_value(ctx, value, shape);
+            let (value, value_comments) = format_field_expression_value(ctx, value, shape);
+            trailing_trivia = value_comments;
 
             Field::ExpressionKey {
                 brackets,
@@ -188,7 +197,6 @@ fn format_field(
             }
         }
         Field::NameKey { key, equal, value } => {
-            trailing_trivia = value.trailing_comments_search(CommentSearch::Single);
             let key = format_token_reference(ctx, key, shape);
 
             // Get the new leading comments to add before the key, and the equal token
@@ -203,17 +211,19 @@ fn format_field(
                 .update_leading_trivia(leading_trivia);
 
             let shape = shape + (strip_trivia(&key).to_string().len() + 3); // 3 = " = "
-            let value = format_field_expression_value(ctx, value, shape);
+            let (value, value_comments) = format_field_expression_value(ctx, value, shape);
+            trailing_trivia = value_comments;
 
             Field::NameKey { key, equal, value }
         }
         Field::NoKey(expression) => {
-            trailing_trivia = expression.trailing_comments_search(CommentSearch::Single);
-
             if let TableType::MultiLine = table_type {
-                let formatted_expression = format_field_expression_value(ctx, expression, shape);
+                let (formatted_expression, expression_comments) =
+                    format_field_expression_value(ctx, expression, shape);
+                trailing_trivia = expression_comments;
                 Field::NoKey(formatted_expression.update_leading_trivia(leading_trivia))
             } else {
+                trailing_trivia = expression.trailing_comments_search(CommentSearch::Single);
                 let formatted_expression = format_expression(ctx, expression, shape);
                 Field::NoKey(formatted_expression)
             }
